@@ -1,14 +1,17 @@
 /-
   C06 — every managed object is finalised exactly once, all memory returned by teardown.
 
-  Property theorems only; lemmas are in CelloProofs/Lemmas/Life{Basic,Fin,Inv}.lean.
+  Property theorems only; lemmas are in CelloProofs/Lemmas/Life{Basic,Fin,Inv,Safe}.lean.
   Model: Cello/Lifecycle.lean (`step`: new/new_root/new_raw, alloc/alloc_root/alloc_raw, del/del_root/del_raw,
   dealloc(destruct(·)), collections with any marked set and any slot order, stop/start, teardown, destructors that `del`
   what they own *and destructors that allocate* (`Op.dtor`: each `new` inside a destructor goes through `GC_Set` and may
   run a nested collection on the same pending list); `finalise`: destructor cascades; ledger of `fin a` / `free a`).
 
-  Three regions of the history language are known findings of this tree; each is excluded from the proved theorems by an
-  explicit, decidable hypothesis and exhibited by a `…_refuted` theorem on a concrete witness:
+  Safety ("no managed object is finalised twice, none is released without being finalised") is proved for *every*
+  well-formed history: `C06_no_double`, `C06_ledger_only_grows`, `C06_registered_inert` have no other hypothesis.
+  For the liveness half ("exactly once … none is left behind at teardown") three regions of the history language are
+  known findings of this tree; each is excluded from those theorems by an explicit, decidable hypothesis and exhibited
+  by a `…_refuted` theorem on a concrete witness:
     F23  new/new_root, del_root while the collector is stopped       — `(ghost ops).lost = []` / no `stop`
     KF-C06-dtor-alloc  an object whose destructor allocates            — `NoDtor ops`
     KF-C06-dealloc-registered  `dealloc` of a registered object        — `WellFormed` (dealloc only of raw objects)
@@ -30,6 +33,7 @@
   and ASan's leak check only.
 -/
 import CelloProofs.Lemmas.LifeInv
+import CelloProofs.Lemmas.LifeSafe
 import Cello.LifecycleSrc
 
 namespace Cello.Life
@@ -42,50 +46,50 @@ namespace Cello.Life
 theorem C06_current_source : sourceCfg = Cfg.current ∧ sourceShapeAsModelled = true := by
   constructor <;> decide
 
-/-- **C06, at most once — every history, including stop/start windows.**  After any well-formed history (any
-    interleaving of allocations, deletions, ownership links, collections with any marked set and any slot order, stop,
-    start, teardown) every object has either no ledger event at all or exactly one `fin` followed by exactly one `free`. -/
-theorem C06_no_double_partial (ops : List Op) (h : WellFormed ops) (hnd : NoDtor ops) (a : Addr) :
-    Clean a (final ops).log ∨ Once a (final ops).log := by
-  have hI := inv_final ops h hnd
-  by_cases h1 : a ∈ (ghost ops).allocd
-  · by_cases h2 : a ∈ (final ops).regAddrs
-    · exact Or.inl (hI.reg a h2).2.2.2
-    · by_cases h3 : a ∈ (ghost ops).rawLive
-      · exact Or.inl (hI.loose a (Or.inl h3)).2.2
-      · by_cases h4 : a ∈ (ghost ops).lost
-        · exact Or.inl (hI.loose a (Or.inr h4)).2.2
-        · exact Or.inr (hI.done a h1 h2 h3 h4)
-  · exact Or.inl (hI.fresh a h1)
+/-- **C06, at most once — every history.**  After any well-formed history — any interleaving of allocations (`new…`,
+    `alloc…`), deletions, `dealloc_raw`, ownership links, collections with any marked set and any slot order, stop, start,
+    teardown, *and destructors that allocate* (with the nested collections they run on the pending list of the sweep in
+    progress) — every object has either no ledger event at all or exactly one `fin` followed by exactly one `free`: nothing
+    is finalised twice, released twice, or released without having been finalised.  (Known finding KF-C06-dtor-alloc loses
+    objects; it never finalises one twice.) -/
+theorem C06_no_double (ops : List Op) (h : WellFormed ops) (a : Addr) :
+    Clean a (final ops).log ∨ Once a (final ops).log :=
+  (sinv_final ops h).total a
 
 /-- the same, counted: at most one `fin`, at most one `free`, and never a `free` without its `fin` -/
-theorem C06_no_double_counts_partial (ops : List Op) (h : WellFormed ops) (hnd : NoDtor ops) (a : Addr) :
+theorem C06_no_double_counts (ops : List Op) (h : WellFormed ops) (a : Addr) :
     (final ops).log.count (Ev.fin a) ≤ 1 ∧ (final ops).log.count (Ev.free a) ≤ 1 ∧
       (final ops).log.count (Ev.free a) = (final ops).log.count (Ev.fin a) := by
-  rcases C06_no_double_partial ops h hnd a with hc | ho
+  rcases C06_no_double ops h a with hc | ho
   · have := count_eq_zero_of_clean hc; omega
   · have := ho.counts; omega
 
 /-- **the ledger only grows**: whatever follows a history extends its ledger, so "at most once at the end of every
-    history" (`C06_no_double`) is "at no point a second finalise or free". -/
-theorem C06_ledger_only_grows (ops more : List Op) (h : WellFormed (ops ++ more)) (hnd : NoDtor (ops ++ more)) :
+    history" (`C06_no_double`) is "at no point a second finalise or free" — for every well-formed history. -/
+theorem C06_ledger_only_grows (ops more : List Op) (h : WellFormed (ops ++ more)) :
     ∃ E, (final (ops ++ more)).log = (final ops).log ++ E := by
   have hw := (wf_append ops more Ghost.init St.init).1 h
-  have hn := NoDtor.append.1 hnd
-  have key : ∀ (more : List Op) (g : Ghost) (s : St), Inv g s → WF g s more → NoDtor more →
+  have key : ∀ (more : List Op) (g : Ghost) (s : St), SInv g s → WF g s more →
       ∃ E, (run Cfg.current s more).log = s.log ++ E := by
     intro more
     induction more with
-    | nil => intro g s _ _ _; exact ⟨[], by simp [run]⟩
+    | nil => intro g s _ _; exact ⟨[], by simp [run]⟩
     | cons op more ih =>
-      intro g s hI hwf hnd'
-      obtain ⟨h1, ⟨E1, hE1⟩, _⟩ := inv_step hI op hwf.1 hnd'.head
-      obtain ⟨E2, hE2⟩ := ih _ _ h1 hwf.2 hnd'.tail
+      intro g s hI hwf
+      obtain ⟨h1, E1, hE1⟩ := sinv_step hI op hwf.1
+      obtain ⟨E2, hE2⟩ := ih _ _ h1 hwf.2
       refine ⟨E1 ++ E2, ?_⟩
       show (run Cfg.current (step Cfg.current s op) more).log = _
       rw [hE2, hE1, List.append_assoc]
-  obtain ⟨E, hE⟩ := key more _ _ (inv_run ops _ _ Inv.init hw.1 hn.1) hw.2 hn.2
+  obtain ⟨E, hE⟩ := key more _ _ (sinv_run ops _ _ SInv.init hw.1) hw.2
   exact ⟨E, by unfold final; rw [run_append]; exact hE⟩
+
+/-- **what the collector still holds has not been finalised** — every well-formed history: an object that is registered
+    (or that a destructor is still going to allocate) has no ledger event; the registry never points at a finalised or
+    released object, and holds no object twice. -/
+theorem C06_registered_inert (ops : List Op) (h : WellFormed ops) :
+    (∀ a ∈ (final ops).regAddrs, Clean a (final ops).log) ∧ (final ops).regAddrs.Nodup :=
+  ⟨fun a ha => (sinv_final ops h).safe.inert a (Or.inl (Or.inr ha)), (sinv_final ops h).safe.nodup⟩
 
 /-- **C06, what teardown leaves.**  After any well-formed history followed by teardown (for any slot order), every
     allocated object is in exactly one of four situations: finalised and released exactly once; a root the program never
@@ -546,13 +550,11 @@ example :
         [.fin 1, .free 1, .fin 2, .free 2, .fin 3, .free 3, .fin 11, .free 11, .fin 12, .free 12, .fin 13, .free 13] := by
   decide
 
-/-- the statement of `C06_no_double_partial` without `NoDtor`.  It is believed to hold on this tree (the nested
-    collection loses objects, it does not finalise any twice: C reproducer and every generated history) but is *not
-    proved*: the proof of `C06_no_double_partial` goes through the exact-effect relation `Eff` (exactly the objects `D`
-    leave the tables), which a nested collection that silently drops the outer pending list does not satisfy; what is
-    missing is an invariant for collector work that may also lose and register objects. -/
-def C06_no_double_statement : Prop :=
-  ∀ (ops : List Op), WellFormed ops → ∀ a : Addr, Clean a (final ops).log ∨ Once a (final ops).log
+/-- safety is *not* affected: on the witnesses of KF-C06-dtor-alloc too every object has no event or exactly one `fin`
+    then one `free` (`C06_no_double` needs no `NoDtor`), and the hypotheses of `C06_no_double` are met by a history with
+    allocating destructors -/
+example : WellFormed (dtorAllocWitness ++ [Op.teardown [1, 2, 3]]) ∧ ¬ NoDtor (dtorAllocWitness ++ [Op.teardown [1, 2, 3]]) := by
+  decide
 
 /-! ### known finding KF-C06-dealloc-registered: `dealloc` does not unregister -/
 
